@@ -5,6 +5,7 @@ From Coq Require Import ZArith List Bool Reals.
 From FT.lib Require Import Num Arr ArrLemmas Lower.
 From FT.gen Require Import Fteik2d Fteik3d.
 From FT.proofs Require Import Sweep2dProofs Sweep3dProofs SweepDargs.
+From FT.proofs Require OperatorsR Operators3R NonNeg2d.
 Import ListNotations.
 Open Scope Z_scope.
 
@@ -80,8 +81,33 @@ Theorem C04_sweep2d_constants :
     sweep2d tt ttsgn slow dz dx zsi xsi zsa xsa vzero nz nx grad = F (dargs2 dz dx) tt ttsgn slow zsi xsi zsa xsa vzero nz nx grad.
 Proof. exact @sweep2d_through_dargs2. Qed.
 
+(* First clause (never faster than physics), exact arithmetic: the multi-point operators are causal.  The 2D 4-point
+   operator under its admissibility test is never earlier than the diagonal neighbour; the 3D 8-point candidate is
+   discarded when it is earlier than the diagonally opposite corner (fix 7b708d7: on non-cubic cells the unguarded
+   operator could be earlier than every neighbour, even negative), and on cubic cells that guard never fires. *)
+Theorem C04_four_point_not_before_diagonal :
+  forall tv te tev vref dz dx : R,
+  (0 < dz)%R -> (0 < dx)%R -> (0 <= vref)%R -> (tv <= te + dx * vref)%R -> (te <= tv + dz * vref)%R ->
+  (tev <= OperatorsR.four_point tv te tev vref (1 / dz / dz) (1 / dx / dx))%R.
+Proof. exact @NonNeg2d.four_point_ge_tev. Qed.
+
+Theorem C04_eight_point_guard_noop_on_cubic_cells :
+  forall tv te tn tev ten tnv tnve vref d dzxi dzyi dxyi : R,
+  (0 < d)%R ->
+  (Operators3R.op3_a tv te tn tev ten tnv tnve + Operators3R.op3_b tv te tn tev ten tnv tnve +
+   Operators3R.op3_c tv te tn tev ten tnv tnve)%R = (3 * tnve)%R /\
+  Operators3R.op3_raw tv te tn tev ten tnv tnve vref d d d dzxi dzyi dxyi (d + d + d) =
+  (tnve + sqrt (Operators3R.op3_t2 vref (d + d + d) - Operators3R.op3_t3 tv te tn tev ten tnv tnve dzxi dzyi dxyi) /
+   (d + d + d))%R /\
+  (tnve <= Operators3R.op3_raw tv te tn tev ten tnv tnve vref d d d dzxi dzyi dxyi (d + d + d))%R /\
+  Operators3R.op3 tv te tn tev ten tnv tnve vref d d d dzxi dzyi dxyi (d + d + d) =
+  Operators3R.op3_raw tv te tn tev ten tnv tnve vref d d d dzxi dzyi dxyi (d + d + d).
+Proof. exact @Operators3R.op3_guard_noop_cubic. Qed.
+
 Print Assumptions C04_sweep3d_constants.
 Print Assumptions C04_sweep2d_constants.
 Print Assumptions C04_fixed_point_edges_2d.
 Print Assumptions C04_fixed_point_edges_2d_R.
 Print Assumptions C04_fixed_point_edges_3d_R.
+Print Assumptions C04_four_point_not_before_diagonal.
+Print Assumptions C04_eight_point_guard_noop_on_cubic_cells.
